@@ -354,6 +354,22 @@ def xopenLine (s : HistState) (t : List String) : Option String :=
     else xopenCore s lo hi
   | _ => none
 
+/-- `H xclose22 id authMode`: close_position_with_token_extensions on an unlocked Token-2022 position holding the state of
+    history position `id` (read-only): only an empty position, only by its owner -/
+def xclose22Line (s : HistState) (t : List String) : Option String :=
+  match t with
+  | [id, auth] => do
+    let id ← id.toNat?
+    let auth ← auth.toNat?
+    match posGet s.positions id with
+    | none => pure "err NoSuchPosition"
+    | some pos =>
+      if auth = 2 then pure "err AccountNotSigner"
+      else if auth = 1 then pure "err MissingOrInvalidDelegate"
+      else if !isPositionEmpty pos false then pure "err ClosePositionNotEmpty"
+      else pure "ok"
+  | _ => none
+
 /-- `H xlock id authMode follow`: lock_position, then one follow-up instruction on the locked position, on the
     current state (read-only).  Only positions with liquidity can be locked; a locked position cannot have
     liquidity removed, be closed, re-ranged, repositioned or locked again; adding liquidity, collecting fees
